@@ -248,6 +248,8 @@ inductive Expr where
   | call (f : Expr) (args : List Expr) (kwNames : List String) (kwVals : List Expr)
   | sub (e i : Expr)
   | lst (es : List Expr)
+  /-- list comprehension with one generator: `[elt for target in iter if c₁ if c₂ …]` -/
+  | comp (elt target iter : Expr) (conds : List Expr)
 deriving Repr
 
 inductive Stmt where
@@ -500,6 +502,15 @@ def dictSet (k v : Val) : List Val → List Val → M (List Val × List Val)
       M.pure (y :: ks, w :: vs)
   | _, _ => M.pure ([k], [v])
 
+def dictDel (k : Val) : List Val → List Val → M (List Val × List Val)
+  | y :: ys, w :: ws => do
+    let c ← liftE (primEq k y)
+    if (← M.branch c) then M.pure (ys, ws)
+    else do
+      let (ks, vs) ← dictDel k ys ws
+      M.pure (y :: ks, w :: vs)
+  | _, _ => M.pure ([], [])
+
 def zipPairs : List Val → List Val → List Val
   | k :: ks, v :: vs => .list [k, v] :: zipPairs ks vs
   | _, _ => []
@@ -529,6 +540,25 @@ def pyMin (a b : Val) : M Val := do
   let c ← liftE (primLt b a)
   if (← M.branch c) then M.pure b else M.pure a
 
+/-- `max(xs)` / `min(xs)` of a non-empty sequence: the first maximal / minimal element -/
+def maxList (acc : Val) : List Val → M Val
+  | [] => M.pure acc
+  | x :: xs => do
+    let c ← liftE (primLt acc x)
+    if (← M.branch c) then maxList x xs else maxList acc xs
+def minList (acc : Val) : List Val → M Val
+  | [] => M.pure acc
+  | x :: xs => do
+    let c ← liftE (primLt x acc)
+    if (← M.branch c) then minList x xs else minList acc xs
+
+/-- `sum(xs)`: left fold of `+` from `0` -/
+def sumList (acc : Val) : List Val → M Val
+  | [] => M.pure acc
+  | x :: xs => do
+    let a ← arith .add acc x
+    sumList a xs
+
 def rangeList (n : Nat) : List Val := (List.range n).map (fun (i : Nat) => Val.int (.lit (Int.ofNat i)))
 
 /-- builtins and library functions with a fixed meaning; `none` = not a builtin -/
@@ -537,6 +567,11 @@ def builtin (fn : String) (args : List Val) : Option (M Val) :=
   | "abs", [v] => some (numAbs v)
   | "max", [a, b] => some (pyMax a b)
   | "min", [a, b] => some (pyMin a b)
+  | "max", [.list (x :: xs)] => some (maxList x xs)
+  | "min", [.list (x :: xs)] => some (minList x xs)
+  | "max", [.list []] => some (M.fail (.raise "ValueError"))
+  | "min", [.list []] => some (M.fail (.raise "ValueError"))
+  | "sum", [.list l] => some (sumList (.int (.lit 0)) l)
   | "cast", [_, v] => some (M.pure v)
   | "len", [.list l] => some (M.pure (.int (.lit l.length)))
   | "len", [.dict ks _] => some (M.pure (.int (.lit ks.length)))
@@ -702,6 +737,16 @@ def eval (env : Env) : Nat → Expr → Vars → St → M (Val × St)
     | .lst es => do
       let (vs, st) ← evalList env n es vars st
       M.pure (.list vs, st)
+    | .comp elt target iter conds => do
+      let (a, st) ← eval env n iter vars st
+      match a with
+      | .list l => do
+        let (vs, st) ← evalComp env n elt target conds l vars st
+        M.pure (.list vs, st)
+      | .dict ks _ => do
+        let (vs, st) ← evalComp env n elt target conds ks vars st
+        M.pure (.list vs, st)
+      | _ => M.fail (.raise "TypeError")
     | .call f args kwNames kwVals =>
       match f with
       | .name g =>
@@ -714,6 +759,9 @@ def eval (env : Env) : Nat → Expr → Vars → St → M (Val × St)
          | Option.none => do
            let (as, st) ← evalList env n args vars st
            let (ks, st) ← evalList env n kwVals vars st
+           match g, as with
+           | "len", [.ref a] => callMethod env n (.ref a) "__len__" [] [] st     -- `len(obj)` is `obj.__len__()`
+           | _, _ =>
            match builtin g as with
            | some r => do M.pure ((← r), st)
            | Option.none =>
@@ -748,6 +796,26 @@ def evalList (env : Env) : Nat → List Expr → Vars → St → M (List Val × 
     let (v, st) ← eval env n e vars st
     let (vs, st) ← evalList env n es vars st
     M.pure (v :: vs, st)
+
+/-- the elements of a comprehension (its variable lives in a frame of its own) -/
+def evalComp (env : Env) : Nat → Expr → Expr → List Expr → List Val → Vars → St → M (List Val × St)
+  | 0, _, _, _, _, _, _ => M.fail .fuel
+  | _+1, _, _, _, [], _, st => M.pure ([], st)
+  | n+1, elt, target, conds, x :: xs, vars, st => do
+    let (vars', st) ← store env n target x vars st
+    let (keep, st) ← evalConds env n conds vars' st
+    if keep then do
+      let (v, st) ← eval env n elt vars' st
+      let (vs, st) ← evalComp env n elt target conds xs vars st
+      M.pure (v :: vs, st)
+    else evalComp env n elt target conds xs vars st
+
+def evalConds (env : Env) : Nat → List Expr → Vars → St → M (Bool × St)
+  | 0, _, _, _ => M.fail .fuel
+  | _+1, [], _, st => M.pure (true, st)
+  | n+1, c :: cs, vars, st => do
+    let (a, st) ← eval env n c vars st
+    if (← truthy a) then evalConds env n cs vars st else M.pure (false, st)
 
 /-- attribute read: a heap field, else a translated property of the object's class -/
 def getAttr (env : Env) : Nat → Val → String → St → M (Val × St)
@@ -833,7 +901,14 @@ def store (env : Env) : Nat → Expr → Val → Vars → St → M (Vars × St)
       | .dict ks vs => do
         let (ks', vs') ← dictSet kv v ks vs
         store env n c (.dict ks' vs') vars st
-      | _ => M.fail (.unsupported "item assignment on a non-dict")
+      | .list l =>
+        (match kv with
+         | .int (.lit i) =>
+           let j : Int := if i < 0 then i + l.length else i
+           if j < 0 ∨ j ≥ l.length then M.fail (.raise "IndexError")
+           else store env n c (.list (l.set j.toNat v)) vars st
+         | _ => M.fail (.unsupported "symbolic index"))
+      | _ => M.fail (.unsupported "item assignment on this value")
     | .lst ts =>
       match v with
       | .list vs => storeAll env n ts vs vars st
@@ -852,6 +927,34 @@ def exec (env : Env) : Nat → Stmt → Vars → St → M (Flow × Vars × St)
   | 0, _, _, _ => M.fail .fuel
   | n+1, s, vars, st =>
     match s with
+    | .expr (.call (.attr target "append") [arg] [] []) => do
+      -- `xs.append(v)` on a list held in a variable / field: the container is a value, so this is
+      -- `xs = xs + [v]` (another name for the same list object would not see it: not modelled)
+      let (c, st) ← eval env n target vars st
+      match c with
+      | .list l => do
+        let (v, st) ← eval env n arg vars st
+        let (vars, st) ← store env n target (.list (l ++ [v])) vars st
+        M.pure (.normal, vars, st)
+      | .ref _ => do
+        let (_, st) ← eval env n (.call (.attr target "append") [arg] [] []) vars st
+        M.pure (.normal, vars, st)
+      | _ => M.fail (.unsupported "append on this value")
+    | .expr (.call (.attr target "pop") [arg] [] []) => do
+      let (c, st) ← eval env n target vars st
+      match c with
+      | .dict ks vs => do
+        let (k, st) ← eval env n arg vars st
+        match (← dictGet k ks vs) with
+        | Option.none => M.fail (.raise "KeyError")
+        | some _ => do
+          let (ks', vs') ← dictDel k ks vs
+          let (vars, st) ← store env n target (.dict ks' vs') vars st
+          M.pure (.normal, vars, st)
+      | .ref _ => do
+        let (_, st) ← eval env n (.call (.attr target "pop") [arg] [] []) vars st
+        M.pure (.normal, vars, st)
+      | _ => M.fail (.unsupported "pop on this value")
     | .expr e => do
       let (_, st) ← eval env n e vars st
       M.pure (.normal, vars, st)
